@@ -2,6 +2,7 @@ package gvc
 
 import (
 	"fmt"
+	"runtime/debug"
 	"go/types"
 	"sort"
 	"strings"
@@ -261,6 +262,7 @@ func (vc *VC) loopModKeys(fn *ssa.Function, h *ssa.BasicBlock) ([]string, bool) 
 	for b := range li.body[h] {
 		blocks = append(blocks, b)
 	}
+	sort.Slice(blocks, func(i, j int) bool { return blocks[i].Index < blocks[j].Index })
 	vc.scanMods(blocks, set, &all, map[*ssa.Function]bool{fn: true})
 	var keys []string
 	for k := range set {
@@ -422,7 +424,7 @@ func NewVC(P *Program, fn *ssa.Function, blk *Block, opt Options) *VC {
 	vc := &VC{P: P, fn: fn, blk: blk, fnName: blk.Name, declared: map[string]bool{}, heapSort: map[string]string{}, heapImm: map[string]bool{},
 		notes: map[string]bool{}, strlits: map[string]string{}, typeIDs: map[string]int{}, typeByID: map[int]types.Type{}, structs: map[string]*structInfo{},
 		globals: map[string]int64{}, params: map[string]T{}, paramTy: map[string]types.Type{}, loopsOf: map[*ssa.Function]*loopInfo{},
-		MaxPaths: opt.MaxPaths, canaries: opt.Canaries, faTags: map[string]int{}, onlyOpcase: opt.OnlyOpcase}
+		MaxPaths: opt.MaxPaths, canaries: opt.Canaries, faTags: map[string]int{}, onlyOpcase: opt.OnlyOpcase, storeDefs: map[string]storeDef{}}
 	if vc.MaxPaths == 0 {
 		vc.MaxPaths = 20000
 	}
@@ -467,9 +469,9 @@ func (vc *VC) markImmutable(spec string) {
 	}
 }
 
-func Verify(P *Program, blk *Block, opt Options) *Result {
+func Verify(P *Program, blk *Block, opt Options) (res *Result) {
 	fn := P.FindFunc(blk)
-	res := &Result{Block: blk, Fn: fn}
+	res = &Result{Block: blk, Fn: fn}
 	if fn == nil {
 		res.Skipped = "STALE-CONTRACT: no function " + blk.Name
 		return res
@@ -481,8 +483,8 @@ func Verify(P *Program, blk *Block, opt Options) *Result {
 	vc := NewVC(P, fn, blk, opt)
 	defer func() {
 		if r := recover(); r != nil {
-			res.Err = fmt.Errorf("engine panic in %s: %v", blk.Name, r)
-			res.Obligs = vc.obligs
+			res.Err = fmt.Errorf("engine panic in %s: %v\n%s", blk.Name, r, debug.Stack())
+			res.Obligs = nil
 		}
 	}()
 	st := &State{heap: map[string]string{}, known: map[string]string{}, baseVer: "0", mark: "mark0"}
@@ -509,8 +511,34 @@ func Verify(P *Program, blk *Block, opt Options) *Result {
 	}
 	ctx := &Ctx{blk: blk, env: map[string]T{}, envTy: map[string]types.Type{}, name: blk.Name}
 	st.ctx = ctx
+	if fn.Name() == "init" && fn.Parent() == nil && fn.Pkg != nil {
+		// package initialiser: runs once, the guard is still false
+		if g, ok := fn.Pkg.Members["init$guard"].(*ssa.Global); ok {
+			ga := vc.globalAddr(g)
+			vc.assume(st, not(vc.loadAt(st, ga, types.Typ[types.Bool]).S))
+		}
+	}
 	// axiom groups
 	for _, u := range blk.Uses {
+		if ib, ok := P.Blocks[u]; ok {
+			// facts established by a package initialiser (its proved
+			// postconditions), valid afterwards because the globals and
+			// fields involved are immutable
+			ifn := P.FindFunc(ib)
+			if ifn == nil {
+				res.Err = fmt.Errorf("uses %s: no such function", u)
+				return res
+			}
+			for _, c := range ib.Ensures {
+				t, err := vc.evalIn(ifn.Pkg.Pkg, newEnv(nil), st, st, c.Text)
+				if err != nil {
+					res.Err = fmt.Errorf("%s:%d: %v", c.File, c.Line, err)
+					return res
+				}
+				vc.assume(st, t.S)
+			}
+			continue
+		}
 		if ax, ok := P.Axioms[u]; ok {
 			for _, c := range ax {
 				t, err := vc.evalClause(ctx, st, st, c.Text, nil)
